@@ -24,6 +24,7 @@ part sampler:<Cxx>    : a reduced pass of the workload generators of the other p
 import ctypes
 import importlib
 import os
+import re
 
 from ..rt import RT, MonitorViolation
 from ..ctx import hx
@@ -197,7 +198,8 @@ def run_sweep(ctx):
             if before is not None:
                 after = CM.snap()
                 if after != before:
-                    ch = [n for n in CM.changed(before, after) if CM.group[n] != "err" and CM.group[n] not in owners]
+                    ch = [n for n in CM.changed(before, after) if CM.group[n] != "err" and CM.group[n] not in owners
+                          and not _CACHE_MEMBER.search(n)]
                     ctx.check(not ch, ctx.cur_key + "|context-member-modified-by-a-call-that-configures-nothing", {"members": ch[:8]})
                 else:
                     ctx.ok()
@@ -1343,6 +1345,11 @@ def run_sweep(ctx):
             s()
     ctx.note("functions_exercised", sorted(R.fn_seen))
     ctx.note("error_codes_seen", {str(k): v for k, v in R.err_codes.items()})
+
+
+# members that hold precomputation / scratch the library may legitimately (re)build at any time: a call that
+# configures nothing may touch them (e.g. a table built on first use) - only the parameter members must stay put
+_CACHE_MEMBER = re.compile(r"(_pre|_ptr|_iso)$|^(fb_tab|fb_half|fb_srz|chain|gt_g|before|after|total|over|perf_|lzcnt|tzcnt)")
 
 
 class _CtxMon(object):
